@@ -53,6 +53,13 @@ static void build_tree() {
     if (symlink("../a.txt", (g_root + "/idx_in/index.html").c_str())) {}
     if (symlink("../../outside/secret.txt", (g_alt + "/idx_out2/index.html").c_str())) {}
     if (symlink("../../outside", (g_root + "/idx_dirlink/index.html").c_str())) {}     // index "file" that is a link to a directory
+    // links into *siblings whose name starts with the root's name* (root -> rootX, alt -> alt2): containment is a matter of whole
+    // path components, not of string prefixes
+    mkdir((g_root + "/idx_sib").c_str(), 0777);
+    if (symlink("../rootX", (g_root + "/link_sib").c_str())) {}
+    if (symlink("../rootX/sibling.txt", (g_root + "/link_sib_file").c_str())) {}
+    if (symlink("../../rootX/sibling.txt", (g_root + "/idx_sib/index.html").c_str())) {}
+    if (symlink("../alt2", (g_alt + "/link_alt2").c_str())) {}
 }
 
 // ---- the harness's own path model -----------------------------------------------------------------------------------
@@ -113,7 +120,8 @@ static Outcome p_serve(Case const &c) {
         V_CHECK(tok == real_lex || tok == real_idx, "serves-other-file", where + "served " + tok + " but the path denotes " + (real_lex.empty() ? "<nothing>" : real_lex));
         // (2) containment
         if (g_check) V_CHECK(under(rp(base), tok), "serves-outside-root", where + "served " + tok + " which is outside " + base + " (check_symlink on)");
-        V_CHECK(!under(g_base + "/rootX", tok), "serves-sibling-of-root", where + tok);
+        // the sibling "rootX" is reachable only through the links link_sib / link_sib_file / idx_sib, and only with symlink checking off
+        if (g_check || (lexical.find("link_sib") == std::string::npos && lexical.find("idx_sib") == std::string::npos)) V_CHECK(!under(g_base + "/rootX", tok), "serves-sibling-of-root", where + tok);
         // never a file below the sandbox's outside area unless symlink checking is off and the path really goes through a link
         if (under(g_out, tok)) V_CHECK(!g_check, "serves-outside-root", where + tok);
         struct stat st; V_CHECK(stat(tok.c_str(), &st) == 0 && S_ISREG(st.st_mode), "serves-non-regular", where + tok);
@@ -190,7 +198,8 @@ static rc::Gen<Case> gen_case() {
     return rc::gen::exec([]() {
         static const char *names[] = {"a.txt", "sub", "deep", "b.html", "c.bin", "sub2", "index.html", ".hidden", ".dotdir", "x.txt", "na<me&'q\".txt", "sp ace.txt", "\xc3\xbcn\xc3\xaf.txt", "alX", "inroot.txt",
                                       "link_out", "link_file_out", "link_in", "link_alt", "dangling", "link_a", "secret.txt", "dir", "s2.txt", "al", "al2", "alX", "al..", "alt", "d.txt", "in", "e.txt", "f.txt",
-                                      "link_out2", ".althidden", "outside", "root", "rootX", "sibling.txt", "plus+file.txt", ".secret", "nonexistent", "idx_out", "idx_in", "idx_out2", "idx_dirlink"};
+                                      "link_out2", ".althidden", "outside", "root", "rootX", "sibling.txt", "plus+file.txt", ".secret", "nonexistent", "idx_out", "idx_in", "idx_out2", "idx_dirlink", "link_sib", "link_sib_file", "idx_sib", "link_alt2"};
+        static const int NNAMES = (int)(sizeof names / sizeof *names);
         Case c;
         if (*vr::range<int>(0, 10) < 7) {
             // a path that denotes something (inside, through links, through aliases, or an escape attempt), decorated with
@@ -199,8 +208,10 @@ static rc::Gen<Case> gen_case() {
                 "/\xc3\xbcn\xc3\xaf.txt", "/alX/inroot.txt", "/alX", "/plus+file.txt", "/link_out/secret.txt", "/link_out/dir/s2.txt", "/link_out", "/link_out/", "/link_file_out", "/link_in/b.html", "/link_in/deep/c.bin",
                 "/sub/link_alt/d.txt", "/link_a", "/dangling", "/al/d.txt", "/al/in/e.txt", "/al", "/al/", "/al2/f.txt", "/al/link_out2/secret.txt", "/al/.althidden", "/al/../a.txt", "/al../a.txt",
                 "/../outside/secret.txt", "/../rootX/sibling.txt", "/sub/../../outside/secret.txt", "/alt/d.txt", "/sub/deep/../b.html", "/sub/deep/../../a.txt", "/sub/.secret", "/link_in/../a.txt", "/link_out/../a.txt",
-                "/idx_out", "/idx_out/", "/idx_out/index.html", "/idx_in/", "/idx_in", "/al/idx_out2/", "/al/idx_out2", "/idx_dirlink/", "/idx_out/./", "/sub/../idx_out/"};
-            std::string t = targets[*vr::range<int>(0, 55)];
+                "/idx_out", "/idx_out/", "/idx_out/index.html", "/idx_in/", "/idx_in", "/al/idx_out2/", "/al/idx_out2", "/idx_dirlink/", "/idx_out/./", "/sub/../idx_out/",
+                "/link_sib/sibling.txt", "/link_sib", "/link_sib/", "/link_sib_file", "/idx_sib/", "/idx_sib", "/idx_sib/index.html", "/al/link_alt2/f.txt", "/al/link_alt2/", "/al/link_alt2"};
+            static const int NTARGETS = (int)(sizeof targets / sizeof *targets);
+            std::string t = targets[*vr::range<int>(0, NTARGETS)];
             std::vector<std::string> segs; size_t i = 1; while (i <= t.size()) { size_t e = t.find('/', i); if (e == std::string::npos) e = t.size(); segs.push_back(t.substr(i, e - i)); if (e == t.size()) break; i = e + 1; }
             int lead = *vr::range<int>(0, 6) == 0 ? *vr::range<int>(1, 4) : 0;
             for (int k = 0; k < lead; k++) c.uri += "/..";
@@ -208,8 +219,8 @@ static rc::Gen<Case> gen_case() {
                 int deco = *vr::range<int>(0, 12);
                 if (deco == 0) c.uri += "/.";
                 else if (deco == 1) c.uri += "/";
-                else if (deco == 2) c.uri += "/" + enc_seg(names[*vr::range<int>(0, 46)]) + "/..";
-                else if (deco == 3) c.uri += "/" + enc_seg(names[*vr::range<int>(0, 46)]) + "/" + enc_seg(names[*vr::range<int>(0, 46)]) + "/../..";
+                else if (deco == 2) c.uri += "/" + enc_seg(names[*vr::range<int>(0, NNAMES)]) + "/..";
+                else if (deco == 3) c.uri += "/" + enc_seg(names[*vr::range<int>(0, NNAMES)]) + "/" + enc_seg(names[*vr::range<int>(0, NNAMES)]) + "/../..";
                 c.uri += (!c.uri.empty() && *vr::range<int>(0, 10) == 0) ? (*vr::range<int>(0, 2) ? "%2f" : "%2F") : "/";   // the URI itself must start with a raw '/'
                 c.uri += enc_seg(segs[k]);
             }
@@ -222,9 +233,9 @@ static rc::Gen<Case> gen_case() {
             c.uri += (i > 0 && *vr::range<int>(0, 8) == 0) ? (*vr::range<int>(0, 2) ? "%2f" : "%2F") : "/";
             int k = *vr::range<int>(0, 20);
             std::string seg;
-            if (k < 3) seg = ".."; else if (k < 5) seg = "."; else if (k == 5) seg = ""; else if (k == 6) seg = "..."; else if (k == 7) { seg = names[*vr::range<int>(0, 46)]; seg += *vr::range<int>(0, 2) ? ".." : "X"; }
+            if (k < 3) seg = ".."; else if (k < 5) seg = "."; else if (k == 5) seg = ""; else if (k == 6) seg = "..."; else if (k == 7) { seg = names[*vr::range<int>(0, NNAMES)]; seg += *vr::range<int>(0, 2) ? ".." : "X"; }
             else if (k == 8) { int m = *vr::range<int>(1, 6); for (int j = 0; j < m; j++) seg += char(*vr::range<int>(1, 256)); for (auto &ch : seg) if (ch == '/') ch = '_'; }
-            else seg = names[*vr::range<int>(0, 46)];
+            else seg = names[*vr::range<int>(0, NNAMES)];
             c.uri += enc_seg(seg);
             if (*vr::range<int>(0, 40) == 0) c.uri += "%00";
         }
